@@ -13,7 +13,8 @@
 //   *_rt               D: arbitrary round-key state: dec(enc(b)) == b, enc(dec(b)) == b
 //   speck_leaf_inverse L: for every type, every k, x, y: round_function(k, .) and inverse_round_function(k, .) are
 //                      mutually inverse modulo 2^n (with the garbage conventions above) -- what the W queries assume
-//   *_w_*              W (96- and 128-bit blocks, where D is slow): the same statements with round_function /
+//   *_w_*              W (96- and 128-bit blocks; the direct queries do not finish there -- Speck128/128 D round trip
+//                      > 30 min -- so these variants have W harnesses only): the same statements with round_function /
 //                      inverse_round_function uninterpreted (module ufs): pass 1 logs (k, args, result) of every call,
 //                      the i-th call of pass 2 is constrained against the ONE logged call the round structure pairs
 //                      it with -- equal arguments => equal results when both passes run the same function (conformance:
@@ -28,7 +29,7 @@ use refmodels::speck as r;
 
 #[cfg(kani)]
 pub mod ufs {
-    // one pass has at most 34 calls (Speck128/256)
+    // one pass has at most 34 calls (Speck128/256).  Static arrays of <= 64 elements with constant indices.
     pub static mut K: [u64; 34] = [0; 34];
     pub static mut A0: [u64; 34] = [0; 34];
     pub static mut A1: [u64; 34] = [0; 34];
@@ -67,18 +68,20 @@ pub mod ufs {
             } else if !INVERSE_PAIRING {
                 // same function, same arguments => same result
                 let e = n - HALF;
-                kani::assume(!((K[e] == k) & (A0[e] == x) & (A1[e] == y)) | ((B0[e] == r.0) & (B1[e] == r.1)));
+                let (ke, a0, a1, b0, b1) = (K[e], A0[e], A1[e], B0[e], B1[e]);
+                kani::assume(!((ke == k) & (a0 == x) & (a1 == y)) | ((b0 == r.0) & (b1 == r.1)));
             } else {
                 // entry e: F(k, A) = B logged in pass 1 (F = the other function); this call G(k, x, y) with
                 // (x, y) == B modulo 2^n must return A modulo 2^n (leaf lemma speck_leaf_inverse).
                 let e = 2 * HALF - 1 - n;
+                let (ke, a0, a1, b0, b1) = (K[e], A0[e], A1[e], B0[e], B1[e]);
                 let hit = if fwd {
                     // G = round_function wants clean arguments: x, y equal the logged results reduced mod 2^n
-                    (K[e] == k) & (x == B0[e] & m) & (y == B1[e] & m)
+                    (ke == k) & (x == b0 & m) & (y == b1 & m)
                 } else {
-                    (K[e] == k) & (x & m == B0[e] & m) & (y & m == B1[e] & m)
+                    (ke == k) & (x & m == b0 & m) & (y & m == b1 & m)
                 };
-                kani::assume(!hit | ((r.0 & m == A0[e] & m) & (r.1 & m == A1[e] & m)));
+                kani::assume(!hit | ((r.0 & m == a0 & m) & (r.1 & m == a1 & m)));
             }
             N = n + 1;
             r
@@ -202,6 +205,14 @@ macro_rules! speck_inst {
                 let mut e = blk;
                 r::crypt_block_with(&P, &rk, &mut e, true, oirf);
                 Some(same(&b, &e))
+            }
+            pub fn rounds_w(inp: &[u8]) -> Option<bool> {
+                vcheck!(enc_w(inp) == Some(true));
+                dec_w(inp)
+            }
+            pub fn rt_w(inp: &[u8]) -> Option<bool> {
+                vcheck!(rt_w_ed(inp) == Some(true));
+                rt_w_de(inp)
             }
             pub fn rt_w_ed(inp: &[u8]) -> Option<bool> {
                 ufs_setup(T, r::mask(P.n), true);
@@ -337,23 +348,23 @@ verif_harness! {
     }
 }
 
-// ------------------------------------------------------------------ Speck32/64
+// ------------------------------------------------------------------ Speck32_64
 
-//@ harness name=speck32_64_ks prop=C10,C20 tier=quick bits=64 est=60 desc="D: Speck32_64::new(key).k == key schedule of the paper (22 round keys), all 2^64 keys"
+//@ harness name=speck32_64_ks prop=C10,C20 tier=quick bits=64 est=60 desc="D: Speck32_64::new(key).k == key schedule of the paper (22 round keys, 16-bit words), all 2^64 keys"
 verif_harness! {
     name: speck32_64_ks,
     bytes: 8,
     unwind: 40,
     prop: |inp| { s32_64::ks(inp) }
 }
-//@ harness name=speck32_64_rounds prop=C10,C20 tier=quick bits=384 est=60 desc="D: Speck32_64 encrypt_block / decrypt_block == oracle on an arbitrary round-key state, all blocks"
+//@ harness name=speck32_64_rounds prop=C10,C20 tier=quick bits=384 est=60 desc="D: Speck32_64 encrypt_block / decrypt_block == oracle on an ARBITRARY round-key state (garbage above bit 16 allowed), all blocks"
 verif_harness! {
     name: speck32_64_rounds,
     bytes: 48,
     unwind: 40,
     prop: |inp| { s32_64::rounds(inp) }
 }
-//@ harness name=speck32_64_rt prop=C01,C20 tier=quick bits=384 est=60 desc="D: Speck32_64 both round trips on an arbitrary round-key state, all blocks"
+//@ harness name=speck32_64_rt prop=C01,C20 tier=quick bits=384 est=60 desc="D: Speck32_64 dec(enc(b)) == b and enc(dec(b)) == b on an ARBITRARY round-key state, all blocks"
 verif_harness! {
     name: speck32_64_rt,
     bytes: 48,
@@ -361,23 +372,23 @@ verif_harness! {
     prop: |inp| { s32_64::rt(inp) }
 }
 
-// ------------------------------------------------------------------ Speck48/72
+// ------------------------------------------------------------------ Speck48_72
 
-//@ harness name=speck48_72_ks prop=C10,C20 tier=quick bits=72 est=60 desc="D: Speck48_72::new(key).k == key schedule of the paper (22 round keys, 24-bit words in u32), all 2^72 keys"
+//@ harness name=speck48_72_ks prop=C10,C20 tier=quick bits=72 est=60 desc="D: Speck48_72::new(key).k == key schedule of the paper (22 round keys, 24-bit words), all 2^72 keys"
 verif_harness! {
     name: speck48_72_ks,
     bytes: 9,
     unwind: 40,
     prop: |inp| { s48_72::ks(inp) }
 }
-//@ harness name=speck48_72_rounds prop=C10,C20 tier=quick bits=752 est=60 desc="D: Speck48_72 encrypt_block / decrypt_block == oracle on an arbitrary round-key state (garbage above bit 24 allowed), all blocks"
+//@ harness name=speck48_72_rounds prop=C10,C20 tier=quick bits=752 est=60 desc="D: Speck48_72 encrypt_block / decrypt_block == oracle on an ARBITRARY round-key state (garbage above bit 24 allowed), all blocks"
 verif_harness! {
     name: speck48_72_rounds,
     bytes: 94,
     unwind: 40,
     prop: |inp| { s48_72::rounds(inp) }
 }
-//@ harness name=speck48_72_rt prop=C01,C20 tier=quick bits=752 est=60 desc="D: Speck48_72 both round trips on an arbitrary round-key state, all blocks"
+//@ harness name=speck48_72_rt prop=C01,C20 tier=quick bits=752 est=60 desc="D: Speck48_72 dec(enc(b)) == b and enc(dec(b)) == b on an ARBITRARY round-key state, all blocks"
 verif_harness! {
     name: speck48_72_rt,
     bytes: 94,
@@ -385,23 +396,23 @@ verif_harness! {
     prop: |inp| { s48_72::rt(inp) }
 }
 
-// ------------------------------------------------------------------ Speck48/96
+// ------------------------------------------------------------------ Speck48_96
 
-//@ harness name=speck48_96_ks prop=C10,C20 tier=quick bits=96 est=60 desc="D: Speck48_96::new(key).k == key schedule of the paper (23 round keys), all 2^96 keys"
+//@ harness name=speck48_96_ks prop=C10,C20 tier=quick bits=96 est=60 desc="D: Speck48_96::new(key).k == key schedule of the paper (23 round keys, 24-bit words), all 2^96 keys"
 verif_harness! {
     name: speck48_96_ks,
     bytes: 12,
     unwind: 40,
     prop: |inp| { s48_96::ks(inp) }
 }
-//@ harness name=speck48_96_rounds prop=C10,C20 tier=quick bits=784 est=60 desc="D: Speck48_96 encrypt_block / decrypt_block == oracle on an arbitrary round-key state, all blocks"
+//@ harness name=speck48_96_rounds prop=C10,C20 tier=quick bits=784 est=60 desc="D: Speck48_96 encrypt_block / decrypt_block == oracle on an ARBITRARY round-key state (garbage above bit 24 allowed), all blocks"
 verif_harness! {
     name: speck48_96_rounds,
     bytes: 98,
     unwind: 40,
     prop: |inp| { s48_96::rounds(inp) }
 }
-//@ harness name=speck48_96_rt prop=C01,C20 tier=quick bits=784 est=60 desc="D: Speck48_96 both round trips on an arbitrary round-key state, all blocks"
+//@ harness name=speck48_96_rt prop=C01,C20 tier=quick bits=784 est=60 desc="D: Speck48_96 dec(enc(b)) == b and enc(dec(b)) == b on an ARBITRARY round-key state, all blocks"
 verif_harness! {
     name: speck48_96_rt,
     bytes: 98,
@@ -409,23 +420,23 @@ verif_harness! {
     prop: |inp| { s48_96::rt(inp) }
 }
 
-// ------------------------------------------------------------------ Speck64/96
+// ------------------------------------------------------------------ Speck64_96
 
-//@ harness name=speck64_96_ks prop=C10,C20 tier=quick bits=96 est=60 desc="D: Speck64_96::new(key).k == key schedule of the paper (26 round keys), all 2^96 keys"
+//@ harness name=speck64_96_ks prop=C10,C20 tier=quick bits=96 est=60 desc="D: Speck64_96::new(key).k == key schedule of the paper (26 round keys, 32-bit words), all 2^96 keys"
 verif_harness! {
     name: speck64_96_ks,
     bytes: 12,
     unwind: 40,
     prop: |inp| { s64_96::ks(inp) }
 }
-//@ harness name=speck64_96_rounds prop=C10,C20 tier=quick bits=896 est=60 desc="D: Speck64_96 encrypt_block / decrypt_block == oracle on an arbitrary round-key state, all blocks"
+//@ harness name=speck64_96_rounds prop=C10,C20 tier=quick bits=896 est=60 desc="D: Speck64_96 encrypt_block / decrypt_block == oracle on an ARBITRARY round-key state (garbage above bit 32 allowed), all blocks"
 verif_harness! {
     name: speck64_96_rounds,
     bytes: 112,
     unwind: 40,
     prop: |inp| { s64_96::rounds(inp) }
 }
-//@ harness name=speck64_96_rt prop=C01,C20 tier=quick bits=896 est=60 desc="D: Speck64_96 both round trips on an arbitrary round-key state, all blocks"
+//@ harness name=speck64_96_rt prop=C01,C20 tier=quick bits=896 est=60 desc="D: Speck64_96 dec(enc(b)) == b and enc(dec(b)) == b on an ARBITRARY round-key state, all blocks"
 verif_harness! {
     name: speck64_96_rt,
     bytes: 112,
@@ -433,23 +444,23 @@ verif_harness! {
     prop: |inp| { s64_96::rt(inp) }
 }
 
-// ------------------------------------------------------------------ Speck64/128
+// ------------------------------------------------------------------ Speck64_128
 
-//@ harness name=speck64_128_ks prop=C10,C20 tier=quick bits=128 est=60 desc="D: Speck64_128::new(key).k == key schedule of the paper (27 round keys), all 2^128 keys"
+//@ harness name=speck64_128_ks prop=C10,C20 tier=quick bits=128 est=60 desc="D: Speck64_128::new(key).k == key schedule of the paper (27 round keys, 32-bit words), all 2^128 keys"
 verif_harness! {
     name: speck64_128_ks,
     bytes: 16,
     unwind: 40,
     prop: |inp| { s64_128::ks(inp) }
 }
-//@ harness name=speck64_128_rounds prop=C10,C20 tier=quick bits=928 est=60 desc="D: Speck64_128 encrypt_block / decrypt_block == oracle on an arbitrary round-key state, all blocks"
+//@ harness name=speck64_128_rounds prop=C10,C20 tier=quick bits=928 est=60 desc="D: Speck64_128 encrypt_block / decrypt_block == oracle on an ARBITRARY round-key state (garbage above bit 32 allowed), all blocks"
 verif_harness! {
     name: speck64_128_rounds,
     bytes: 116,
     unwind: 40,
     prop: |inp| { s64_128::rounds(inp) }
 }
-//@ harness name=speck64_128_rt prop=C01,C20 tier=quick bits=928 est=60 desc="D: Speck64_128 both round trips on an arbitrary round-key state, all blocks"
+//@ harness name=speck64_128_rt prop=C01,C20 tier=quick bits=928 est=60 desc="D: Speck64_128 dec(enc(b)) == b and enc(dec(b)) == b on an ARBITRARY round-key state, all blocks"
 verif_harness! {
     name: speck64_128_rt,
     bytes: 116,
@@ -457,129 +468,9 @@ verif_harness! {
     prop: |inp| { s64_128::rt(inp) }
 }
 
-// ------------------------------------------------------------------ Speck96/96
+// ------------------------------------------------------------------ Speck96_96
 
-//@ harness name=speck96_96_ks prop=C10,C20 tier=quick bits=96 est=60 desc="D: Speck96_96::new(key).k == key schedule of the paper (28 round keys, 48-bit words in u64), all 2^96 keys"
-verif_harness! {
-    name: speck96_96_ks,
-    bytes: 12,
-    unwind: 40,
-    prop: |inp| { s96_96::ks(inp) }
-}
-//@ harness name=speck96_96_rounds prop=C10,C20 tier=quick bits=1888 est=60 desc="D: Speck96_96 encrypt_block / decrypt_block == oracle on an arbitrary round-key state (garbage above bit 48 allowed), all blocks"
-verif_harness! {
-    name: speck96_96_rounds,
-    bytes: 236,
-    unwind: 40,
-    prop: |inp| { s96_96::rounds(inp) }
-}
-//@ harness name=speck96_96_rt prop=C01,C20 tier=quick bits=1888 est=60 desc="D: Speck96_96 both round trips on an arbitrary round-key state, all blocks"
-verif_harness! {
-    name: speck96_96_rt,
-    bytes: 236,
-    unwind: 40,
-    prop: |inp| { s96_96::rt(inp) }
-}
-
-// ------------------------------------------------------------------ Speck96/144
-
-//@ harness name=speck96_144_ks prop=C10,C20 tier=quick bits=144 est=60 desc="D: Speck96_144::new(key).k == key schedule of the paper (29 round keys), all 2^144 keys"
-verif_harness! {
-    name: speck96_144_ks,
-    bytes: 18,
-    unwind: 40,
-    prop: |inp| { s96_144::ks(inp) }
-}
-//@ harness name=speck96_144_rounds prop=C10,C20 tier=quick bits=1952 est=60 desc="D: Speck96_144 encrypt_block / decrypt_block == oracle on an arbitrary round-key state, all blocks"
-verif_harness! {
-    name: speck96_144_rounds,
-    bytes: 244,
-    unwind: 40,
-    prop: |inp| { s96_144::rounds(inp) }
-}
-//@ harness name=speck96_144_rt prop=C01,C20 tier=quick bits=1952 est=60 desc="D: Speck96_144 both round trips on an arbitrary round-key state, all blocks"
-verif_harness! {
-    name: speck96_144_rt,
-    bytes: 244,
-    unwind: 40,
-    prop: |inp| { s96_144::rt(inp) }
-}
-
-// ------------------------------------------------------------------ Speck128/128
-
-//@ harness name=speck128_128_ks prop=C10,C20 tier=quick bits=128 est=60 desc="D: Speck128_128::new(key).k == key schedule of the paper (32 round keys), all 2^128 keys"
-verif_harness! {
-    name: speck128_128_ks,
-    bytes: 16,
-    unwind: 40,
-    prop: |inp| { s128_128::ks(inp) }
-}
-//@ harness name=speck128_128_rounds prop=C10,C20 tier=quick bits=2176 est=60 desc="D: Speck128_128 encrypt_block / decrypt_block == oracle on an arbitrary round-key state, all blocks"
-verif_harness! {
-    name: speck128_128_rounds,
-    bytes: 272,
-    unwind: 40,
-    prop: |inp| { s128_128::rounds(inp) }
-}
-//@ harness name=speck128_128_rt prop=C01,C20 tier=quick bits=2176 est=60 desc="D: Speck128_128 both round trips on an arbitrary round-key state, all blocks"
-verif_harness! {
-    name: speck128_128_rt,
-    bytes: 272,
-    unwind: 40,
-    prop: |inp| { s128_128::rt(inp) }
-}
-
-// ------------------------------------------------------------------ Speck128/192
-
-//@ harness name=speck128_192_ks prop=C10,C20 tier=quick bits=192 est=60 desc="D: Speck128_192::new(key).k == key schedule of the paper (33 round keys), all 2^192 keys"
-verif_harness! {
-    name: speck128_192_ks,
-    bytes: 24,
-    unwind: 40,
-    prop: |inp| { s128_192::ks(inp) }
-}
-//@ harness name=speck128_192_rounds prop=C10,C20 tier=quick bits=2240 est=60 desc="D: Speck128_192 encrypt_block / decrypt_block == oracle on an arbitrary round-key state, all blocks"
-verif_harness! {
-    name: speck128_192_rounds,
-    bytes: 280,
-    unwind: 40,
-    prop: |inp| { s128_192::rounds(inp) }
-}
-//@ harness name=speck128_192_rt prop=C01,C20 tier=quick bits=2240 est=60 desc="D: Speck128_192 both round trips on an arbitrary round-key state, all blocks"
-verif_harness! {
-    name: speck128_192_rt,
-    bytes: 280,
-    unwind: 40,
-    prop: |inp| { s128_192::rt(inp) }
-}
-
-// ------------------------------------------------------------------ Speck128/256
-
-//@ harness name=speck128_256_ks prop=C10,C20 tier=quick bits=256 est=60 desc="D: Speck128_256::new(key).k == key schedule of the paper (34 round keys), all 2^256 keys"
-verif_harness! {
-    name: speck128_256_ks,
-    bytes: 32,
-    unwind: 40,
-    prop: |inp| { s128_256::ks(inp) }
-}
-//@ harness name=speck128_256_rounds prop=C10,C20 tier=quick bits=2304 est=60 desc="D: Speck128_256 encrypt_block / decrypt_block == oracle on an arbitrary round-key state, all blocks"
-verif_harness! {
-    name: speck128_256_rounds,
-    bytes: 288,
-    unwind: 40,
-    prop: |inp| { s128_256::rounds(inp) }
-}
-//@ harness name=speck128_256_rt prop=C01,C20 tier=quick bits=2304 est=60 desc="D: Speck128_256 both round trips on an arbitrary round-key state, all blocks"
-verif_harness! {
-    name: speck128_256_rt,
-    bytes: 288,
-    unwind: 40,
-    prop: |inp| { s128_256::rt(inp) }
-}
-
-// ------------------------------------------------------------------ W variants (wide blocks)
-
-//@ harness name=speck96_96_w_ks prop=C10,C20 tier=quick bits=96 stub=1 est=60 desc="W: Speck96_96::new(key).k == key schedule of the paper (28 round keys) with round_function uninterpreted (shared with the oracle: (l_(i+m-1), k_(i+1)) = R_i(l_i, k_i)), all keys"
+//@ harness name=speck96_96_w_ks prop=C10,C20 tier=quick bits=96 stub=1 est=60 desc="W: Speck96_96::new(key).k == key schedule of the paper (28 round keys, 48-bit words in u64) with round_function uninterpreted (shared with the oracle: (l_(i+m-1), k_(i+1)) = R_i(l_i, k_i)), all keys"
 verif_harness! {
     name: speck96_96_w_ks,
     bytes: 12,
@@ -587,40 +478,26 @@ verif_harness! {
     stubs: [(crate::Speck96_96::round_function, s96_96::stub_rf), (crate::Speck96_96::inverse_round_function, s96_96::stub_irf)],
     prop: |inp| { s96_96::ks_w(inp) }
 }
-//@ harness name=speck96_96_w_enc prop=C10,C20 tier=quick bits=1888 stub=1 est=60 desc="W: Speck96_96 encrypt_block == oracle (28 rounds, byte order) on an arbitrary round-key state, all blocks, round_function uninterpreted"
+//@ harness name=speck96_96_w_rounds prop=C10,C20 tier=quick bits=1888 stub=1 est=60 desc="W: Speck96_96 encrypt_block and decrypt_block == oracle (28 rounds, round keys in reverse, byte order) on an ARBITRARY round-key state, all blocks; round_function / inverse_round_function uninterpreted, shared with the oracle"
 verif_harness! {
-    name: speck96_96_w_enc,
+    name: speck96_96_w_rounds,
     bytes: 236,
     unwind: 40,
     stubs: [(crate::Speck96_96::round_function, s96_96::stub_rf), (crate::Speck96_96::inverse_round_function, s96_96::stub_irf)],
-    prop: |inp| { s96_96::enc_w(inp) }
+    prop: |inp| { s96_96::rounds_w(inp) }
 }
-//@ harness name=speck96_96_w_dec prop=C10,C20 tier=quick bits=1888 stub=1 est=60 desc="W: Speck96_96 decrypt_block == oracle (round keys in reverse) on an arbitrary round-key state, all blocks, inverse_round_function uninterpreted"
+//@ harness name=speck96_96_w_rt prop=C01,C20 tier=quick bits=1888 stub=1 est=60 desc="W: Speck96_96 decrypt_block(encrypt_block(b)) == b and encrypt_block(decrypt_block(b)) == b on an ARBITRARY round-key state, all blocks; round_function / inverse_round_function uninterpreted mutual inverses (leaf lemma speck_leaf_inverse)"
 verif_harness! {
-    name: speck96_96_w_dec,
+    name: speck96_96_w_rt,
     bytes: 236,
     unwind: 40,
     stubs: [(crate::Speck96_96::round_function, s96_96::stub_rf), (crate::Speck96_96::inverse_round_function, s96_96::stub_irf)],
-    prop: |inp| { s96_96::dec_w(inp) }
-}
-//@ harness name=speck96_96_w_rt_ed prop=C01,C20 tier=quick bits=1888 stub=1 est=60 desc="W: Speck96_96 decrypt_block(encrypt_block(b)) == b on an arbitrary round-key state, all blocks; round_function / inverse_round_function uninterpreted mutual inverses (leaf lemma speck_leaf_inverse)"
-verif_harness! {
-    name: speck96_96_w_rt_ed,
-    bytes: 236,
-    unwind: 40,
-    stubs: [(crate::Speck96_96::round_function, s96_96::stub_rf), (crate::Speck96_96::inverse_round_function, s96_96::stub_irf)],
-    prop: |inp| { s96_96::rt_w_ed(inp) }
-}
-//@ harness name=speck96_96_w_rt_de prop=C01,C20 tier=quick bits=1888 stub=1 est=60 desc="W: Speck96_96 encrypt_block(decrypt_block(b)) == b on an arbitrary round-key state, all blocks; round_function / inverse_round_function uninterpreted mutual inverses"
-verif_harness! {
-    name: speck96_96_w_rt_de,
-    bytes: 236,
-    unwind: 40,
-    stubs: [(crate::Speck96_96::round_function, s96_96::stub_rf), (crate::Speck96_96::inverse_round_function, s96_96::stub_irf)],
-    prop: |inp| { s96_96::rt_w_de(inp) }
+    prop: |inp| { s96_96::rt_w(inp) }
 }
 
-//@ harness name=speck96_144_w_ks prop=C10,C20 tier=quick bits=144 stub=1 est=60 desc="W: Speck96_144::new(key).k == key schedule of the paper (29 round keys) with round_function uninterpreted (shared with the oracle: (l_(i+m-1), k_(i+1)) = R_i(l_i, k_i)), all keys"
+// ------------------------------------------------------------------ Speck96_144
+
+//@ harness name=speck96_144_w_ks prop=C10,C20 tier=quick bits=144 stub=1 est=60 desc="W: Speck96_144::new(key).k == key schedule of the paper (29 round keys, 48-bit words in u64) with round_function uninterpreted (shared with the oracle: (l_(i+m-1), k_(i+1)) = R_i(l_i, k_i)), all keys"
 verif_harness! {
     name: speck96_144_w_ks,
     bytes: 18,
@@ -628,40 +505,26 @@ verif_harness! {
     stubs: [(crate::Speck96_144::round_function, s96_144::stub_rf), (crate::Speck96_144::inverse_round_function, s96_144::stub_irf)],
     prop: |inp| { s96_144::ks_w(inp) }
 }
-//@ harness name=speck96_144_w_enc prop=C10,C20 tier=quick bits=1952 stub=1 est=60 desc="W: Speck96_144 encrypt_block == oracle (29 rounds, byte order) on an arbitrary round-key state, all blocks, round_function uninterpreted"
+//@ harness name=speck96_144_w_rounds prop=C10,C20 tier=quick bits=1952 stub=1 est=60 desc="W: Speck96_144 encrypt_block and decrypt_block == oracle (29 rounds, round keys in reverse, byte order) on an ARBITRARY round-key state, all blocks; round_function / inverse_round_function uninterpreted, shared with the oracle"
 verif_harness! {
-    name: speck96_144_w_enc,
+    name: speck96_144_w_rounds,
     bytes: 244,
     unwind: 40,
     stubs: [(crate::Speck96_144::round_function, s96_144::stub_rf), (crate::Speck96_144::inverse_round_function, s96_144::stub_irf)],
-    prop: |inp| { s96_144::enc_w(inp) }
+    prop: |inp| { s96_144::rounds_w(inp) }
 }
-//@ harness name=speck96_144_w_dec prop=C10,C20 tier=quick bits=1952 stub=1 est=60 desc="W: Speck96_144 decrypt_block == oracle (round keys in reverse) on an arbitrary round-key state, all blocks, inverse_round_function uninterpreted"
+//@ harness name=speck96_144_w_rt prop=C01,C20 tier=quick bits=1952 stub=1 est=60 desc="W: Speck96_144 decrypt_block(encrypt_block(b)) == b and encrypt_block(decrypt_block(b)) == b on an ARBITRARY round-key state, all blocks; round_function / inverse_round_function uninterpreted mutual inverses (leaf lemma speck_leaf_inverse)"
 verif_harness! {
-    name: speck96_144_w_dec,
+    name: speck96_144_w_rt,
     bytes: 244,
     unwind: 40,
     stubs: [(crate::Speck96_144::round_function, s96_144::stub_rf), (crate::Speck96_144::inverse_round_function, s96_144::stub_irf)],
-    prop: |inp| { s96_144::dec_w(inp) }
-}
-//@ harness name=speck96_144_w_rt_ed prop=C01,C20 tier=quick bits=1952 stub=1 est=60 desc="W: Speck96_144 decrypt_block(encrypt_block(b)) == b on an arbitrary round-key state, all blocks; round_function / inverse_round_function uninterpreted mutual inverses (leaf lemma speck_leaf_inverse)"
-verif_harness! {
-    name: speck96_144_w_rt_ed,
-    bytes: 244,
-    unwind: 40,
-    stubs: [(crate::Speck96_144::round_function, s96_144::stub_rf), (crate::Speck96_144::inverse_round_function, s96_144::stub_irf)],
-    prop: |inp| { s96_144::rt_w_ed(inp) }
-}
-//@ harness name=speck96_144_w_rt_de prop=C01,C20 tier=quick bits=1952 stub=1 est=60 desc="W: Speck96_144 encrypt_block(decrypt_block(b)) == b on an arbitrary round-key state, all blocks; round_function / inverse_round_function uninterpreted mutual inverses"
-verif_harness! {
-    name: speck96_144_w_rt_de,
-    bytes: 244,
-    unwind: 40,
-    stubs: [(crate::Speck96_144::round_function, s96_144::stub_rf), (crate::Speck96_144::inverse_round_function, s96_144::stub_irf)],
-    prop: |inp| { s96_144::rt_w_de(inp) }
+    prop: |inp| { s96_144::rt_w(inp) }
 }
 
-//@ harness name=speck128_128_w_ks prop=C10,C20 tier=quick bits=128 stub=1 est=60 desc="W: Speck128_128::new(key).k == key schedule of the paper (32 round keys) with round_function uninterpreted (shared with the oracle: (l_(i+m-1), k_(i+1)) = R_i(l_i, k_i)), all keys"
+// ------------------------------------------------------------------ Speck128_128
+
+//@ harness name=speck128_128_w_ks prop=C10,C20 tier=quick bits=128 stub=1 est=60 desc="W: Speck128_128::new(key).k == key schedule of the paper (32 round keys, 64-bit words in u64) with round_function uninterpreted (shared with the oracle: (l_(i+m-1), k_(i+1)) = R_i(l_i, k_i)), all keys"
 verif_harness! {
     name: speck128_128_w_ks,
     bytes: 16,
@@ -669,40 +532,26 @@ verif_harness! {
     stubs: [(crate::Speck128_128::round_function, s128_128::stub_rf), (crate::Speck128_128::inverse_round_function, s128_128::stub_irf)],
     prop: |inp| { s128_128::ks_w(inp) }
 }
-//@ harness name=speck128_128_w_enc prop=C10,C20 tier=quick bits=2176 stub=1 est=60 desc="W: Speck128_128 encrypt_block == oracle (32 rounds, byte order) on an arbitrary round-key state, all blocks, round_function uninterpreted"
+//@ harness name=speck128_128_w_rounds prop=C10,C20 tier=quick bits=2176 stub=1 est=60 desc="W: Speck128_128 encrypt_block and decrypt_block == oracle (32 rounds, round keys in reverse, byte order) on an ARBITRARY round-key state, all blocks; round_function / inverse_round_function uninterpreted, shared with the oracle"
 verif_harness! {
-    name: speck128_128_w_enc,
+    name: speck128_128_w_rounds,
     bytes: 272,
     unwind: 40,
     stubs: [(crate::Speck128_128::round_function, s128_128::stub_rf), (crate::Speck128_128::inverse_round_function, s128_128::stub_irf)],
-    prop: |inp| { s128_128::enc_w(inp) }
+    prop: |inp| { s128_128::rounds_w(inp) }
 }
-//@ harness name=speck128_128_w_dec prop=C10,C20 tier=quick bits=2176 stub=1 est=60 desc="W: Speck128_128 decrypt_block == oracle (round keys in reverse) on an arbitrary round-key state, all blocks, inverse_round_function uninterpreted"
+//@ harness name=speck128_128_w_rt prop=C01,C20 tier=quick bits=2176 stub=1 est=60 desc="W: Speck128_128 decrypt_block(encrypt_block(b)) == b and encrypt_block(decrypt_block(b)) == b on an ARBITRARY round-key state, all blocks; round_function / inverse_round_function uninterpreted mutual inverses (leaf lemma speck_leaf_inverse)"
 verif_harness! {
-    name: speck128_128_w_dec,
+    name: speck128_128_w_rt,
     bytes: 272,
     unwind: 40,
     stubs: [(crate::Speck128_128::round_function, s128_128::stub_rf), (crate::Speck128_128::inverse_round_function, s128_128::stub_irf)],
-    prop: |inp| { s128_128::dec_w(inp) }
-}
-//@ harness name=speck128_128_w_rt_ed prop=C01,C20 tier=quick bits=2176 stub=1 est=60 desc="W: Speck128_128 decrypt_block(encrypt_block(b)) == b on an arbitrary round-key state, all blocks; round_function / inverse_round_function uninterpreted mutual inverses (leaf lemma speck_leaf_inverse)"
-verif_harness! {
-    name: speck128_128_w_rt_ed,
-    bytes: 272,
-    unwind: 40,
-    stubs: [(crate::Speck128_128::round_function, s128_128::stub_rf), (crate::Speck128_128::inverse_round_function, s128_128::stub_irf)],
-    prop: |inp| { s128_128::rt_w_ed(inp) }
-}
-//@ harness name=speck128_128_w_rt_de prop=C01,C20 tier=quick bits=2176 stub=1 est=60 desc="W: Speck128_128 encrypt_block(decrypt_block(b)) == b on an arbitrary round-key state, all blocks; round_function / inverse_round_function uninterpreted mutual inverses"
-verif_harness! {
-    name: speck128_128_w_rt_de,
-    bytes: 272,
-    unwind: 40,
-    stubs: [(crate::Speck128_128::round_function, s128_128::stub_rf), (crate::Speck128_128::inverse_round_function, s128_128::stub_irf)],
-    prop: |inp| { s128_128::rt_w_de(inp) }
+    prop: |inp| { s128_128::rt_w(inp) }
 }
 
-//@ harness name=speck128_192_w_ks prop=C10,C20 tier=quick bits=192 stub=1 est=60 desc="W: Speck128_192::new(key).k == key schedule of the paper (33 round keys) with round_function uninterpreted (shared with the oracle: (l_(i+m-1), k_(i+1)) = R_i(l_i, k_i)), all keys"
+// ------------------------------------------------------------------ Speck128_192
+
+//@ harness name=speck128_192_w_ks prop=C10,C20 tier=quick bits=192 stub=1 est=60 desc="W: Speck128_192::new(key).k == key schedule of the paper (33 round keys, 64-bit words in u64) with round_function uninterpreted (shared with the oracle: (l_(i+m-1), k_(i+1)) = R_i(l_i, k_i)), all keys"
 verif_harness! {
     name: speck128_192_w_ks,
     bytes: 24,
@@ -710,40 +559,26 @@ verif_harness! {
     stubs: [(crate::Speck128_192::round_function, s128_192::stub_rf), (crate::Speck128_192::inverse_round_function, s128_192::stub_irf)],
     prop: |inp| { s128_192::ks_w(inp) }
 }
-//@ harness name=speck128_192_w_enc prop=C10,C20 tier=quick bits=2240 stub=1 est=60 desc="W: Speck128_192 encrypt_block == oracle (33 rounds, byte order) on an arbitrary round-key state, all blocks, round_function uninterpreted"
+//@ harness name=speck128_192_w_rounds prop=C10,C20 tier=quick bits=2240 stub=1 est=60 desc="W: Speck128_192 encrypt_block and decrypt_block == oracle (33 rounds, round keys in reverse, byte order) on an ARBITRARY round-key state, all blocks; round_function / inverse_round_function uninterpreted, shared with the oracle"
 verif_harness! {
-    name: speck128_192_w_enc,
+    name: speck128_192_w_rounds,
     bytes: 280,
     unwind: 40,
     stubs: [(crate::Speck128_192::round_function, s128_192::stub_rf), (crate::Speck128_192::inverse_round_function, s128_192::stub_irf)],
-    prop: |inp| { s128_192::enc_w(inp) }
+    prop: |inp| { s128_192::rounds_w(inp) }
 }
-//@ harness name=speck128_192_w_dec prop=C10,C20 tier=quick bits=2240 stub=1 est=60 desc="W: Speck128_192 decrypt_block == oracle (round keys in reverse) on an arbitrary round-key state, all blocks, inverse_round_function uninterpreted"
+//@ harness name=speck128_192_w_rt prop=C01,C20 tier=quick bits=2240 stub=1 est=60 desc="W: Speck128_192 decrypt_block(encrypt_block(b)) == b and encrypt_block(decrypt_block(b)) == b on an ARBITRARY round-key state, all blocks; round_function / inverse_round_function uninterpreted mutual inverses (leaf lemma speck_leaf_inverse)"
 verif_harness! {
-    name: speck128_192_w_dec,
+    name: speck128_192_w_rt,
     bytes: 280,
     unwind: 40,
     stubs: [(crate::Speck128_192::round_function, s128_192::stub_rf), (crate::Speck128_192::inverse_round_function, s128_192::stub_irf)],
-    prop: |inp| { s128_192::dec_w(inp) }
-}
-//@ harness name=speck128_192_w_rt_ed prop=C01,C20 tier=quick bits=2240 stub=1 est=60 desc="W: Speck128_192 decrypt_block(encrypt_block(b)) == b on an arbitrary round-key state, all blocks; round_function / inverse_round_function uninterpreted mutual inverses (leaf lemma speck_leaf_inverse)"
-verif_harness! {
-    name: speck128_192_w_rt_ed,
-    bytes: 280,
-    unwind: 40,
-    stubs: [(crate::Speck128_192::round_function, s128_192::stub_rf), (crate::Speck128_192::inverse_round_function, s128_192::stub_irf)],
-    prop: |inp| { s128_192::rt_w_ed(inp) }
-}
-//@ harness name=speck128_192_w_rt_de prop=C01,C20 tier=quick bits=2240 stub=1 est=60 desc="W: Speck128_192 encrypt_block(decrypt_block(b)) == b on an arbitrary round-key state, all blocks; round_function / inverse_round_function uninterpreted mutual inverses"
-verif_harness! {
-    name: speck128_192_w_rt_de,
-    bytes: 280,
-    unwind: 40,
-    stubs: [(crate::Speck128_192::round_function, s128_192::stub_rf), (crate::Speck128_192::inverse_round_function, s128_192::stub_irf)],
-    prop: |inp| { s128_192::rt_w_de(inp) }
+    prop: |inp| { s128_192::rt_w(inp) }
 }
 
-//@ harness name=speck128_256_w_ks prop=C10,C20 tier=quick bits=256 stub=1 est=60 desc="W: Speck128_256::new(key).k == key schedule of the paper (34 round keys) with round_function uninterpreted (shared with the oracle: (l_(i+m-1), k_(i+1)) = R_i(l_i, k_i)), all keys"
+// ------------------------------------------------------------------ Speck128_256
+
+//@ harness name=speck128_256_w_ks prop=C10,C20 tier=quick bits=256 stub=1 est=60 desc="W: Speck128_256::new(key).k == key schedule of the paper (34 round keys, 64-bit words in u64) with round_function uninterpreted (shared with the oracle: (l_(i+m-1), k_(i+1)) = R_i(l_i, k_i)), all keys"
 verif_harness! {
     name: speck128_256_w_ks,
     bytes: 32,
@@ -751,35 +586,20 @@ verif_harness! {
     stubs: [(crate::Speck128_256::round_function, s128_256::stub_rf), (crate::Speck128_256::inverse_round_function, s128_256::stub_irf)],
     prop: |inp| { s128_256::ks_w(inp) }
 }
-//@ harness name=speck128_256_w_enc prop=C10,C20 tier=quick bits=2304 stub=1 est=60 desc="W: Speck128_256 encrypt_block == oracle (34 rounds, byte order) on an arbitrary round-key state, all blocks, round_function uninterpreted"
+//@ harness name=speck128_256_w_rounds prop=C10,C20 tier=quick bits=2304 stub=1 est=60 desc="W: Speck128_256 encrypt_block and decrypt_block == oracle (34 rounds, round keys in reverse, byte order) on an ARBITRARY round-key state, all blocks; round_function / inverse_round_function uninterpreted, shared with the oracle"
 verif_harness! {
-    name: speck128_256_w_enc,
+    name: speck128_256_w_rounds,
     bytes: 288,
     unwind: 40,
     stubs: [(crate::Speck128_256::round_function, s128_256::stub_rf), (crate::Speck128_256::inverse_round_function, s128_256::stub_irf)],
-    prop: |inp| { s128_256::enc_w(inp) }
+    prop: |inp| { s128_256::rounds_w(inp) }
 }
-//@ harness name=speck128_256_w_dec prop=C10,C20 tier=quick bits=2304 stub=1 est=60 desc="W: Speck128_256 decrypt_block == oracle (round keys in reverse) on an arbitrary round-key state, all blocks, inverse_round_function uninterpreted"
+//@ harness name=speck128_256_w_rt prop=C01,C20 tier=quick bits=2304 stub=1 est=60 desc="W: Speck128_256 decrypt_block(encrypt_block(b)) == b and encrypt_block(decrypt_block(b)) == b on an ARBITRARY round-key state, all blocks; round_function / inverse_round_function uninterpreted mutual inverses (leaf lemma speck_leaf_inverse)"
 verif_harness! {
-    name: speck128_256_w_dec,
+    name: speck128_256_w_rt,
     bytes: 288,
     unwind: 40,
     stubs: [(crate::Speck128_256::round_function, s128_256::stub_rf), (crate::Speck128_256::inverse_round_function, s128_256::stub_irf)],
-    prop: |inp| { s128_256::dec_w(inp) }
+    prop: |inp| { s128_256::rt_w(inp) }
 }
-//@ harness name=speck128_256_w_rt_ed prop=C01,C20 tier=quick bits=2304 stub=1 est=60 desc="W: Speck128_256 decrypt_block(encrypt_block(b)) == b on an arbitrary round-key state, all blocks; round_function / inverse_round_function uninterpreted mutual inverses (leaf lemma speck_leaf_inverse)"
-verif_harness! {
-    name: speck128_256_w_rt_ed,
-    bytes: 288,
-    unwind: 40,
-    stubs: [(crate::Speck128_256::round_function, s128_256::stub_rf), (crate::Speck128_256::inverse_round_function, s128_256::stub_irf)],
-    prop: |inp| { s128_256::rt_w_ed(inp) }
-}
-//@ harness name=speck128_256_w_rt_de prop=C01,C20 tier=quick bits=2304 stub=1 est=60 desc="W: Speck128_256 encrypt_block(decrypt_block(b)) == b on an arbitrary round-key state, all blocks; round_function / inverse_round_function uninterpreted mutual inverses"
-verif_harness! {
-    name: speck128_256_w_rt_de,
-    bytes: 288,
-    unwind: 40,
-    stubs: [(crate::Speck128_256::round_function, s128_256::stub_rf), (crate::Speck128_256::inverse_round_function, s128_256::stub_irf)],
-    prop: |inp| { s128_256::rt_w_de(inp) }
-}
+
